@@ -33,6 +33,12 @@ func ZZVerifC18Container() {
 		got, ok := shmodel.Assigned(script, "OTHER", tag)
 		nd.Assert(ok && bytes.Equal(got, []byte("o")), "C18/container/other-variable-intact")
 	}
+	// the terminator is drawn afresh for every script (a value that repeats
+	// the terminator of an EARLIER script must still be data) and is long
+	r2, err2 := InitSequence(e)
+	nd.Assert(err2 == nil, "C18/container/no-error")
+	tag2 := zzTag(shmodel.ReadAll(r2))
+	nd.Assert(len(tag) >= 13 && len(tag2) >= 13 && tag != tag2, "C18/container/terminator-fresh-per-script")
 	nd.Reach("C18/container/end")
 }
 
